@@ -75,9 +75,10 @@ View == [height |-> db.height,
 MBTInit == Init /\ hist = <<>>
 
 (* a block: each position takes a random reverted transaction that is not in the chain now (once),
-   else a fresh one - so with orphans around most positions re-include, in a random order *)
+   else a fresh one - so with orphans around most positions re-include, in a random order; an empty
+   replacement block drops everything *)
 SimStore ==
-  \E size \in R(IF Orphans = {} THEN 0..MaxSize ELSE 1..MaxSize) :
+  \E size \in R(0..MaxSize) :
     \E kinds \in R(Seqs(Kinds, size)), evs \in R(Seqs(EvCounts, size)), revs \in R(Seqs(Revs, size)),
        tl \in R(Seqs(Lens, size)), rl \in R(Seqs(Lens, size)),
        pick \in R(Seqs(Orphans \cup {Fresh}, size)) :
